@@ -458,6 +458,8 @@ def history_runs(run_, exe, rng, n, prop):
         if prop == "C05" and rng.random() < 0.15:
             # diffs without context that add in front of line 1 or remove the first lines of a file that stays
             s = scen.base_scenario(rng, [scen.top_section(rng, p_, rng.choice(["git", "git", "unified"]), rng.choice(["add-top", "del-top"])) for p_ in rng.sample(["u0", "ud/u0"], rng.choice([1, 2]))], opts={})
+        if prop == "C05" and rng.random() < 0.12 and "p.diff" in s["tree"] and s["opts"].get("p") == 1 and not s.get("how"):
+            s = scen.dot_names(s) or s          # names written './path', -p0
         if prop == "C05" and rng.random() < 0.15:
             s = scen.dir_stream_scenario(rng)
         if prop == "C05" and rng.random() < 0.25:
